@@ -38,7 +38,7 @@ PROBES = ["ran_to_completion", "forced_cleanup_deleted_preexisting", "refused_wi
           "relative_workspace", "default_workspace", "input_via_symlinked_ancestor", "cwd_contains_default_name",
           "c_language", "c_header_preprocess", "second_run_other_project", "second_run_incremental", "spawned_subprocess", "graph_output", "javascript_language",
           "inputs_share_base_name", "input_given_with_leading_dotdots", "strict_parse_mode", "non_utf8_source_file",
-          "pwd_is_start_directory", "pwd_left_over_from_launcher", "two_inputs_contain_workspace", "not_quiet", "taint_report_written", "debug_print_stmts", "workspace_below_a_src_directory", "plugin_option", "first_run_incremental", "workspace_copied_elsewhere", "input_file_deleted_between_runs", "shell_metacharacters_in_c_file_name"]
+          "pwd_is_start_directory", "pwd_left_over_from_launcher", "two_inputs_contain_workspace", "not_quiet", "taint_report_written", "debug_print_stmts", "workspace_below_a_src_directory", "plugin_option", "first_run_incremental", "workspace_copied_elsewhere", "input_file_deleted_between_runs", "shell_metacharacters_in_c_file_name", "second_run_names_the_workspace_copy_as_input"]
 # the same check again, smaller, in interpreters started with assertions stripped (python -O / PYTHONOPTIMIZE=1)
 ENV_VARIANTS = [{"name": "python-O", "env": {"PYTHONOPTIMIZE": "1"}, "runs": {'quick': 250, 'thorough': 2500}}]
 TIERS = {
@@ -105,7 +105,7 @@ def gen_knobs(rng, tier):
         "graph": rng.random() < 0.35,
         "c_preprocess": rng.random() < 0.7,
         "second": rng.choice(["same_forced", "same_forced", "other_project_forced", "other_project_incremental", "other_project_incremental",
-                              "moved_workspace_incremental"]),
+                              "moved_workspace_incremental", "own_copy_incremental"]),
         "n_inputs": rng.choice([1, 1, 2, 3]),
         "tree_files": rng.randint(1, 8),
         "symlinks": rng.random() < 0.4,
@@ -331,6 +331,22 @@ def generate(rng, k):
         kind2 = k.get("second", "same_forced")
         if kind2 == "moved_workspace_incremental" and (placement != "disjoint" or not run.get("w") or run["w"].get("form") != "abs"):
             kind2 = "same_forced"
+        if kind2 == "own_copy_incremental" and (placement != "disjoint" or not run.get("w") or run["w"].get("form") != "abs"
+                                                or k.get("ws_under_src") or not run["inputs"] or run["inputs"][0]["path"].endswith(".py")):
+            kind2 = "same_forced"
+        if kind2 == "own_copy_incremental":
+            # the workspace directory is a link to a directory on another disk whose path does not contain the default name; after a
+            # forced run the user re-analyses "the sources" with --incremental and names the workspace's OWN copy of them
+            ops[:] = [o_ for o_ in ops]
+            ops.insert(0, {"op": "mkdir", "path": "bigdisk/store"})
+            ops.insert(1, {"op": "symlink", "path": run["w"]["path"] + "/" + DEFAULT_WS, "target_abs": "bigdisk/store"})
+            run["force"] = True
+            run["flags"] = [f_ for f_ in run.get("flags", []) if f_ != "--incremental"]
+            second["force"] = False
+            second["flags"] = [f_ for f_ in second.get("flags", []) if f_ != "--incremental"] + ["--incremental"]
+            second["inputs"] = [{"form": "abs", "path": "bigdisk/store/src/" + os.path.basename(run["inputs"][0]["path"])}]
+            ops.append(second)
+            return ops
         if kind2 == "moved_workspace_incremental":
             # the workspace of the first run is COPIED to another place (a backup restored elsewhere, a moved checkout), an input
             # file is deleted, and the copy is re-used with --incremental: everything the copy remembers about paths points into
@@ -461,6 +477,8 @@ def execute(trace):
                     "flags": flags_, "quiet": op.get("quiet", True)}
             if "--incremental" in flags_ and n_run == 1:
                 hit("first_run_incremental")
+            if n_run == 2 and any(fsseam._inside(ir, W) for ir in [os.path.realpath(os.path.join(cwd_abs, a)) for a in in_args]) and "--incremental" in flags_:
+                hit("second_run_names_the_workspace_copy_as_input")
             if not op.get("quiet", True):
                 hit("not_quiet")
             if op["lang"] == "c" and any(o_["op"] == "mkfile" and any(ch in os.path.basename(o_["path"]) for ch in ">;$&`*' ") and o_["path"].endswith(".c") for o_ in world_ops):
@@ -542,6 +560,9 @@ def execute(trace):
             stdio_path = os.path.join(B, f"stdio{n_run}.txt")
             plan = [dict(f) for f in op.get("faults", [])] if k["population"] == "faulted" else []
 
+            # an input that lies INSIDE the workspace is also read by the --incremental backup of the previous workspace contents:
+            # once by the backup, once by the copy of the inputs
+            copy_factor = 2 if ("--incremental" in flags_ and any(fsseam._inside(ir, W) for ir in input_real)) else 1
             # --incremental re-uses (rewrites, backs up) the previous contents of the workspace: inside W it has the same licence as -f
             inside_ok = bool(op["force"] or "--incremental" in op.get("flags", []))
 
@@ -552,7 +573,7 @@ def execute(trace):
                     os.replace(_rp + ".tmp", _rp)
                 seam = fsseam.Seam({"R": R, "W": _W, "allow": [home, tmpd], "force": _force, "preexisting": set(_before),
                                     "faults": _plan, "on_die": on_die, "max_events": 2500,
-                                    "input_roots": list(input_real), "max_input_copies": eligible,
+                                    "input_roots": list(input_real), "max_input_copies": eligible * copy_factor,
                                     "src_root": os.path.join(_W, "src"), "max_src_dirs": n_dirs + len(input_real) + 1 + ws_depth})
                 seam.install()
                 return lambda: _report(seam)
@@ -644,7 +665,7 @@ def execute(trace):
                 dirs_under_src = sum(1 for p, v in after.items() if v[0] == "d" and fsseam._inside(p, src_root) and p not in before)
                 # header preprocessing (-I) legitimately writes _processed / .i files next to the copies: no byte bound then
                 bytes_bound = elig_bytes if "-I" not in op.get("flags", []) else 10 ** 12
-                if len(copies) > eligible or bytes_under_src > bytes_bound or dirs_under_src > n_dirs + len(input_real) + 1 + ws_depth:
+                if len(copies) > eligible * copy_factor or bytes_under_src > bytes_bound or dirs_under_src > n_dirs + len(input_real) + 1 + ws_depth:
                     violation = {"step": step, "cls": "I4:unbounded_copy", "detail": {
                         "run": n_run, "argv": _mask_argv(argv, R), "status": status, "detail": out.get("detail", "").replace(R, "<R>"), "W": W.replace(R, "<R>"),
                         "copies_from_inputs": len(copies), "eligible_input_files": eligible,
